@@ -58,6 +58,35 @@ def part_faults_seq(ctx):
     return p
 
 
+def part_faults_http(ctx):
+    """the fault injection API end to end: POST /faults/inject and GET /faults of the real controller
+    (application fx module), Set.Check, against Faults.srun"""
+    p = Part("faults-http-api")
+    d = os.path.join(ctx["work"], "faults_http")
+    n = 120 if QUICK(ctx) else 1500
+    rc, out = harness(["faults-http", "-seed", str(ctx["seed"]), "-n", str(n), "-out", d])
+    if rc != 0:
+        p.violation("harness-failed", out[-1500:], dict(log=out[-3000:]), found_input=False)
+        return p
+    info = json.load(open(os.path.join(d, "faults_http.json")))
+    p.evaluations = sum(info["stats"].get(k, 0) for k in ("add", "check_fired", "check_pass", "current"))
+    p.nontrivial = info["stats"].get("check_fired", 0)
+    p.traces = n
+    p.samples = info["samples"]
+    p.info = info["stats"]
+
+    def bad(f, name, lst):
+        src = open(f).read()
+        for i in re.findall(r"(\d+)%nat", lst)[:3]:
+            mh = re.search(r"\(%s%%nat, \(\[.*?\]\)\)" % i, src, re.S)
+            p.violation("faults-http-mismatch", "faults added through POST /faults/inject, listed through GET /faults and fired by Set.Check disagree with the sequential model on history %s "
+                        "(count omitted = unlimited, 0 = never fires and is never listed, n = exactly n firings)" % i,
+                        dict(kind="faults-http", history=mh.group(0) if mh else i, seed=ctx["seed"]))
+            break
+    _eval_dir(p, d, "faults_http.v", ["bad"], bad)
+    return p
+
+
 def part_faults_sched(ctx):
     p = Part("faults-forced-schedules")
     d = os.path.join(ctx["work"], "fsched")
@@ -1268,8 +1297,8 @@ CHECKS = {
         assumptions=BUS_ASSUME + ["snapshot_meaning assumes plain deliveries (no dead-letter forwards into the subscription)"]),
     "C18": dict(
         props=["C18"],
-        parts=[part_faults_seq, part_faults_sched, part_faults_grpc, part_faults_prune],
-        rule="[+ stress part: a fault added while the asynchronous prune of an exhausted fault of the same operation runs must not be lost (300 rounds, prune slowed by 3000 unrelated descriptions); a stream opened while no fault was configured still gets faults injected later] sequential histories of Add/Check/Current and forced interleavings (yield hook between match and decrement) of 2-6 concurrent callers; through the deployed gRPC "
+        parts=[part_faults_seq, part_faults_http, part_faults_sched, part_faults_grpc, part_faults_prune],
+        rule="[+ HTTP API part: Add/Check/Current histories with the descriptions added through POST /faults/inject and listed through GET /faults of the real controller (count omitted = unlimited / 0 / negative / n) vs the same sequential model] [+ stress part: a fault added while the asynchronous prune of an exhausted fault of the same operation runs must not be lost (300 rounds, prune slowed by 3000 unrelated descriptions); a stream opened while no fault was configured still gets faults injected later] sequential histories of Add/Check/Current and forced interleavings (yield hook between match and decrement) of 2-6 concurrent callers; through the deployed gRPC "
              "interceptor chain: unary calls and streaming pulls (stream-open check carrying only service -> method, general and per-message receive checks) with faults naming request fields; "
              "non-trivial = a fault fired / a caller lost the race and had to re-match",
         trusted=["Go memory model, sync/atomic and sync.RWMutex (each atomic Load/Add is one LTS step)", "the verif yield hook in faults.Set.Check (one added line)"],
